@@ -122,6 +122,7 @@ type Sess struct {
 	rets []retInfo
 	nilcheck bool
 	arithChecked bool
+	convChecked bool
 	debugRefs map[string][]*ssa.DebugRef
 	funcsUsed map[string]bool // contracts applied (callee keys)
 	trustedUsed map[string]bool
@@ -644,6 +645,23 @@ func (s *Sess) findLoops() {
 		s.loopList = append(s.loopList, s.loops[h])
 		if s.ct != nil {
 			s.loops[h].spec = s.ct.Loops[i]
+			// the receiver's type invariant holds at every loop head of a method (checked like a
+			// written invariant)
+			var implicit []*Clause
+			for _, r := range s.ct.Requires {
+				if strings.HasPrefix(r.Label, "typeinv") {
+					c := *r
+					implicit = append(implicit, &c)
+				}
+			}
+			if len(implicit) > 0 {
+				ls := &LoopSpec{}
+				if s.loops[h].spec != nil {
+					*ls = *s.loops[h].spec
+				}
+				ls.Invariants = append(append([]*Clause{}, implicit...), ls.Invariants...)
+				s.loops[h].spec = ls
+			}
 		}
 	}
 }
@@ -820,6 +838,10 @@ func (s *Sess) run() {
 		}
 		if s.ct.Opts["arith"] == "checked" {
 			s.arithChecked = true
+			s.convChecked = true
+		}
+		if s.ct.Opts["conv"] == "checked" {
+			s.convChecked = true
 		}
 	}
 	if s.eng.nilcheckAll {
